@@ -7,12 +7,21 @@ import (
 
 	"github.com/canopy-network/canopy/lib"
 	"verifharness/bftsim"
+	"verifharness/sim"
 )
 
 func main() {
 	scenario := flag.String("scenario", "", "run one scripted scenario and print its story")
 	verbose := flag.Bool("v", false, "verbose")
+	runs := flag.Int("runs", 30, "random recorded runs")
+	ticks := flag.Int("ticks", 60, "ticks per random run")
+	outDir := flag.String("outdir", ".", "output directory")
+	_ = flag.String("replay", "", "replay file (cases regenerate deterministically from the seed)")
 	flag.Parse()
+	if *scenario == "" {
+		checkMode(*runs, *ticks, *outDir)
+		return
+	}
 	switch *scenario {
 	case "stale-highqc-root-update", "root-update-control", "duplicate-root-update":
 		root := uint64(6)
@@ -20,6 +29,9 @@ func main() {
 			root = 5 // the notification for the root height the replicas are already at, delivered again
 		}
 		n, story, err := scenarioStaleHighQCAcrossRootUpdate(*scenario != "root-update-control", root, *verbose)
+		report(n, story, err)
+	case "stale-block-hash-cache", "block-hash-cache-control":
+		n, story, err := scenarioStaleBlockHashCache(*scenario == "stale-block-hash-cache", *verbose)
 		report(n, story, err)
 	case "stale-precommit", "genuine-precommit":
 		n, story, err := scenarioStalePrecommitQC(*scenario == "stale-precommit", *verbose)
@@ -43,4 +55,60 @@ func report(n *bftsim.Net, story []string, err error) {
 	} else {
 		fmt.Println("agreement holds")
 	}
+}
+
+type stats struct {
+	Cases     int               `json:"cases"`
+	Distinct  int               `json:"distinct_nontrivial"`
+	Actions   int               `json:"actions"`
+	Commits   int               `json:"commits_observed"`
+	Strategy  map[string]int    `json:"byzantine_strategies"`
+	Scenarios map[string]string `json:"scripted_scenarios"`
+	Samples   []string          `json:"samples"`
+}
+
+// checkMode: the scripted attack schedules (a fork is reported directly) and the recorded random runs (replayed on the model)
+func checkMode(runs, ticks int, outDir string) {
+	st := &stats{Strategy: map[string]int{}, Scenarios: map[string]string{}}
+	type sc struct {
+		name string
+		run  func() (*bftsim.Net, []string, error)
+	}
+	for _, s := range []sc{
+		{"stale-precommit", func() (*bftsim.Net, []string, error) { return scenarioStalePrecommitQC(true, false) }},
+		{"stale-highqc-root-update", func() (*bftsim.Net, []string, error) { return scenarioStaleHighQCAcrossRootUpdate(true, 6, false) }},
+		{"duplicate-root-update", func() (*bftsim.Net, []string, error) { return scenarioStaleHighQCAcrossRootUpdate(true, 5, false) }},
+		{"stale-block-hash-cache", func() (*bftsim.Net, []string, error) { return scenarioStaleBlockHashCache(true, false) }},
+		{"root-update-control", func() (*bftsim.Net, []string, error) { return scenarioStaleHighQCAcrossRootUpdate(false, 6, false) }},
+		{"genuine-precommit", func() (*bftsim.Net, []string, error) { return scenarioStalePrecommitQC(false, false) }},
+	} {
+		n, story, err := s.run()
+		switch {
+		case err != nil:
+			st.Scenarios[s.name] = "did not complete: " + err.Error()
+		default:
+			if a, b := n.Disagreement(honest); a != nil {
+				st.Scenarios[s.name] = "FORK"
+				sim.Direct(outDir, map[string]any{"finding": "fork-" + s.name, "kind": "two correct replicas committed different blocks at one height",
+					"replica_a": a.Replica, "block_a": lib.BytesToString(a.BlockHash), "replica_b": b.Replica, "block_b": lib.BytesToString(b.BlockHash), "story": story})
+			} else {
+				st.Scenarios[s.name] = fmt.Sprintf("agreement holds (%d commits)", len(n.Commits))
+			}
+		}
+	}
+	r := sim.NewRng(sim.SeedFromEnv())
+	cw := &sim.CaseWriter{OutDir: outDir, Name: "c01", Imports: "From V Require Import U64 Extracted Bft BftNet BftCheck.", CaseType: "bft_case", MFun: "bft_mismatches", VFun: "bft_violations", PerShard: 6}
+	for i := 0; i < runs; i++ {
+		lit, meta, rs := randomRun(r.Fork(), ticks)
+		cw.Add(lit, meta)
+		st.Cases++
+		st.Actions += rs.Actions
+		st.Commits += rs.Commits
+		st.Strategy[rs.Strategy]++
+		if rs.Commits > 0 {
+			st.Distinct++
+		}
+	}
+	cw.Close(st)
+	fmt.Printf("c01: %d recorded runs (%d with commits), %d actions, %d commits observed, strategies %v; scripted scenarios %v\n", st.Cases, st.Distinct, st.Actions, st.Commits, st.Strategy, st.Scenarios)
 }
